@@ -1,0 +1,55 @@
+//go:build verif
+
+// Contracts for the verifier in /verif (comment-only file; contributes no declarations).
+package processorqueue
+
+//@ pure APIStreamI.GetID
+//@ pure APIStreamI.GetRequest
+//@ pure TransactionI.GetID
+//@ pure TransactionI.GetHeaders
+//@ pure contextmanager.Get
+//@ pure ContextManager.GetClock
+//@ dropped queueProcessor).updateMetrics
+//@ dropped queueProcessor).updateHistogramMetric
+
+// ---------------------------------------------------------------- one verdict per request
+// The wait group is created with count 1 (NewRequest); the waiter is released exactly when it reaches 0.
+// Every interleaving: the invariant holds whenever the request's lock is free.
+//@ monitor Request.inProcessMutex
+//@   self r
+//@   protects state, result, waitGroup
+//@   invariant[one-signal] (r.state == requestProcessed <==> wgcount(r.waitGroup) == 0) && 0 <= wgcount(r.waitGroup) && wgcount(r.waitGroup) <= 1
+//@   invariant[verdict]    r.state == requestProcessed ==> r.result == requestSuccess || r.result == requestTimeout
+//@   rely[verdict-final]   old(r.state) == requestProcessed ==> r.state == requestProcessed && r.result == old(r.result)
+
+//@ func (*Request).StartProcessing
+//@   prop C06
+//@   modifies r.state, now
+//@   ensures[only-from-enqueued] result <==> atlock(r.state) == requestEnqueued
+//@   ensures[claims] seq: result ==> r.state == requestProcessing
+//@   ensures[otherwise-untouched] seq: !result ==> r.state == old(r.state)
+
+// only the goroutine that claimed the request (StartProcessing) calls StopProcessing, and shutdown (StopAll) runs on that same goroutine
+//@ func (*Request).StopProcessing
+//@   prop C06
+//@   mode seq
+//@   requires[owned] r.state == requestProcessing
+//@   modifies r.state, now
+//@   ensures seq: r.state == requestEnqueued
+
+//@ func (*Request).SetProcessedSuccess
+//@   prop C06
+//@   modifies r.state, r.result, opof(r.waitGroup), now
+//@   ensures[delivered] seq: r.state == requestProcessed && (old(r.state) != requestProcessed ==> r.result == requestSuccess) && (old(r.state) == requestProcessed ==> r.result == old(r.result))
+//@   ensures[signals-once] seq: wgcount(r.waitGroup) == 0
+
+//@ func (*Request).SetProcessedTimeout
+//@   prop C06
+//@   modifies r.state, r.result, opof(r.waitGroup), now
+//@   ensures[delivered] seq: r.state == requestProcessed && (old(r.state) != requestProcessed ==> r.result == requestTimeout && result) && (old(r.state) == requestProcessed ==> r.result == old(r.result) && !result)
+//@   ensures[signals-once] seq: wgcount(r.waitGroup) == 0
+
+//@ func (*Request).Wait
+//@   prop C06
+//@   modifies now
+//@   ensures[verdict] result <==> r.result == requestSuccess
